@@ -84,12 +84,14 @@ def run_scripts(chk, scripts, label, monitor="TraceDelivery", env=None):
     return viols
 
 
-def report(chk, viols, scripts, prefixes, family):
+def report(chk, viols, scripts, prefixes, family, relabel=None):
     byscen = {s["scen"]: s for s in scripts}
     other = set()
     for scen, code, line in viols:
         if any(code.startswith(p) for p in prefixes):
             sc = byscen.get(scen)
+            if relabel:
+                code = relabel + code.replace("/", ":")
             chk.violation(code, {"layer": "socket", "family": family, "scenario": scen, "sock": sc and sc["sock"], "trace_line": line},
                           {"kind": "engine", "script": sc})
         else:
